@@ -109,6 +109,7 @@ type Specs struct {
 	Macros     map[string]*Macro
 	Opaques    map[string]*Macro // predicates over immutable state, folded into an uninterpreted symbol
 	SpecFns    map[string]*Macro // recursive integer specification functions (unfolded once per occurrence)
+	StrictFields map[string]bool // "<type>.<field>" classes framed strictly (type block directive 'strict:')
 	OwnedMaps  map[string]bool // map classes ("map:<type>") whose contents are framed strictly: 'modifies *' does not cover them
 	ImmutableElems map[string][]string // slice element classes ("[]T") written only in arrays fresh to the writer -> properties
 }
@@ -269,7 +270,7 @@ func mkClause(text string) (Clause, error) {
 
 // LoadSpecs reads //@ blocks from every zz_verif*.go file under the repo and *.spec under extern dir.
 func LoadSpecs(repo string, externDir string) (*Specs, error) {
-	sp := &Specs{Funcs: map[string]*FuncSpec{}, Loops: map[string]*LoopSpec{}, Types: map[string]*TypeSpec{}, Ifaces: map[string]*FuncSpec{}, GhostVars: map[string]string{}, GhostPkg: map[string]string{}, GhostLocal: map[string]bool{}, Macros: map[string]*Macro{}, SpecFns: map[string]*Macro{}, Opaques: map[string]*Macro{}, ImmutableElems: map[string][]string{}, OwnedMaps: map[string]bool{}}
+	sp := &Specs{Funcs: map[string]*FuncSpec{}, Loops: map[string]*LoopSpec{}, Types: map[string]*TypeSpec{}, Ifaces: map[string]*FuncSpec{}, GhostVars: map[string]string{}, GhostPkg: map[string]string{}, GhostLocal: map[string]bool{}, Macros: map[string]*Macro{}, SpecFns: map[string]*Macro{}, Opaques: map[string]*Macro{}, ImmutableElems: map[string][]string{}, OwnedMaps: map[string]bool{}, StrictFields: map[string]bool{}}
 	var files []string
 	for _, pk := range repoPkgs {
 		m, _ := filepath.Glob(filepath.Join(repo, pk, "zz_verif*.go"))
@@ -779,6 +780,17 @@ func (sp *Specs) parseFile(path string, extern bool) error {
 			mu := strings.TrimSpace(rest[:i])
 			for _, f := range strings.Split(rest[i+1:], ",") {
 				curT.Guarded[strings.TrimSpace(f)] = mu
+			}
+		case "strict:", "strict":
+			// fields framed strictly: they change only where a contract's modifies clause names them,
+			// also under 'modifies *' (like ghost state and owned maps)
+			if curT == nil {
+				return fail(fmt.Errorf("strict outside type block"))
+			}
+			for _, f := range strings.Split(strings.TrimPrefix(rest, ":"), ",") {
+				if f = strings.TrimSpace(f); f != "" {
+					sp.StrictFields[curT.Name+"."+f] = true
+				}
 			}
 		case "immutable:", "immutable":
 			if curT == nil {
